@@ -1,18 +1,30 @@
 #!/usr/bin/env python3
-"""Re-runs ./check on every kept seed (patched scratch copy of /repo/luna) and reports seeds that are no longer caught."""
+"""Re-runs ./check on every kept seed (patched scratch copy of /repo/luna) and reports seeds that are no longer caught.
+usage: [SEED_DST=seeded_glue] tools_seed_recheck.py [--update] [id ...]     (--update rewrites caught / failed_obligations in meta.json)"""
 import json, os, subprocess, sys, shutil, tempfile, glob
 ROOT = os.path.dirname(os.path.abspath(__file__))
-ids = sys.argv[1:] or sorted(os.path.basename(d) for d in glob.glob(os.path.join(ROOT, "seeded", "C*")))
+SD = os.environ.get("SEED_DST", "seeded")
+args = [a for a in sys.argv[1:] if a != "--update"]
+update = "--update" in sys.argv
+ids = args or sorted(os.path.basename(d) for d in glob.glob(os.path.join(ROOT, SD, "*")) if os.path.isdir(d))
 for sid in ids:
     d = tempfile.mkdtemp(prefix="recheck.", dir="/tmp")
     try:
         shutil.copytree("/repo/luna", os.path.join(d, "luna"))
-        meta = json.load(open(os.path.join(ROOT, "seeded", sid, "meta.json")))
-        r = subprocess.run(f"patch -p1 -s < {os.path.join(ROOT, 'seeded', sid, 'patch.diff')}", shell=True, cwd=d, capture_output=True, text=True)
+        mp = os.path.join(ROOT, SD, sid, "meta.json")
+        meta = json.load(open(mp))
+        r = subprocess.run(f"patch -p1 -s < {os.path.join(ROOT, SD, sid, 'patch.diff')}", shell=True, cwd=d, capture_output=True, text=True)
         if r.returncode != 0:
             print(sid, "PATCH-FAILED"); continue
         r = subprocess.run([os.path.join(ROOT, "check"), meta["property"]], env={**os.environ, "HWV_REPO": d}, capture_output=True, text=True)
         vio = [l for l in r.stdout.splitlines() if l.startswith("VIOLATION")]
-        print(sid, "caught" if (r.returncode == 1 and vio) else f"MISSED exit={r.returncode}", len(vio), flush=True)
+        caught = r.returncode == 1 and bool(vio)
+        print(sid, "caught" if caught else f"MISSED exit={r.returncode}", len(vio), flush=True)
+        if update:
+            if "caught" in meta and not meta["caught"] and caught:
+                meta.setdefault("first_run", {"caught": False, "check_exit": meta.get("check_exit")})
+            meta.update({"caught": caught, "check_exit": r.returncode, "violation_lines": vio[:6],
+                         "failed_obligations": [l.strip() for l in r.stdout.splitlines() if "failed obligation" in l][:12]})
+            json.dump(meta, open(mp, "w"), indent=1)
     finally:
         shutil.rmtree(d, ignore_errors=True)
